@@ -154,7 +154,8 @@ Record world : Type := mkWorld {
   w_prefs : list (name * oid);        (* refs/patches/<b>/<name> *)
   w_wt : tree;                        (* index = work tree content (clean model) *)
   w_unmerged : bool;                  (* index has unmerged entries *)
-  w_base : oid                        (* not a ref: bookkeeping for the harness *)
+  w_base : oid;                       (* not a ref: bookkeeping for the harness *)
+  w_apc : bool                        (* config stgit.push.allow-conflicts (default true) *)
 }.
 
 Definition state_of (objs : store) (so : oid) : option sstate :=
@@ -861,7 +862,7 @@ Inductive exitc : Type := X0 | X1 | X2 | X3 | XPanic.
 
 (* ensure_patch_refs: afterwards the patch refs mirror the state's patch map *)
 Definition ensure_patch_refs (w : world) (s : sstate) : world :=
-  mkWorld (w_objs w) (w_branch w) (w_stack w) (s_patches s) (w_wt w) (w_unmerged w) (w_base w).
+  mkWorld (w_objs w) (w_branch w) (w_stack w) (s_patches s) (w_wt w) (w_unmerged w) (w_base w) (w_apc w).
 
 Record opened : Type := mkOpened {
   op_world : world;
@@ -885,7 +886,7 @@ Definition open_stack (p : policy) (w : world) : option opened :=
     match state_commit (w_objs w) s MOp with
     | None => None
     | Some (objs', so) =>
-        let w' := mkWorld objs' (w_branch w) (Some so) (w_prefs w) (w_wt w) (w_unmerged w) (w_base w) in
+        let w' := mkWorld objs' (w_branch w) (Some so) (w_prefs w) (w_wt w) (w_unmerged w) (w_base w) (w_apc w) in
         Some (mkOpened (ensure_patch_refs w' s) s (w_branch w) true)
     end in
   match p, w_stack w with
@@ -911,7 +912,7 @@ Definition begin_txn (op : opened) (o : topts) : txn :=
 (* ---------------------------------------------------------------- execute *)
 
 Definition with_objs (w : world) (objs : store) : world :=
-  mkWorld objs (w_branch w) (w_stack w) (w_prefs w) (w_wt w) (w_unmerged w) (w_base w).
+  mkWorld objs (w_branch w) (w_stack w) (w_prefs w) (w_wt w) (w_unmerged w) (w_base w) (w_apc w).
 
 (* log_external_mods: new state commit with head := branch head, prev := current state ref *)
 Definition log_external_mods (w : world) (s : sstate) : option (world * sstate) :=
@@ -922,7 +923,7 @@ Definition log_external_mods (w : world) (s : sstate) : option (world * sstate) 
       match state_commit (w_objs w) s' MOp with
       | None => None
       | Some (objs', so') =>
-          Some (mkWorld objs' (w_branch w) (Some so') (w_prefs w) (w_wt w) (w_unmerged w) (w_base w), s')
+          Some (mkWorld objs' (w_branch w) (Some so') (w_prefs w) (w_wt w) (w_unmerged w) (w_base w) (w_apc w), s')
       end
   end.
 
@@ -961,7 +962,7 @@ Definition execute (w : world) (r : tres) (msg : msgkind) : world * exitc :=
       (* consistency asserts run first; then `return Err(error)`: objects created by the
          closure persist, refs are untouched, the work tree keeps whatever the merge
          fallback did to it *)
-      (mkWorld (t_objs t) (w_branch w) (w_stack w) (w_prefs w) (t_wt t) (t_wt_unmerged t) (w_base w), X2)
+      (mkWorld (t_objs t) (w_branch w) (w_stack w) (w_prefs w) (t_wt t) (t_wt_unmerged t) (w_base w) (w_apc w), X2)
   | TOk t | THalt t _ =>
       let halted := match r with THalt _ h => Some h | _ => None end in
       let consistent :=
@@ -979,7 +980,7 @@ Definition execute (w : world) (r : tres) (msg : msgkind) : world * exitc :=
             let trans_top := hd_error (rev (t_applied t)) in
             let stack_top := hd_error (rev (s_applied (t_stack t))) in
             let w0 := mkWorld (t_objs t) (w_branch w) (w_stack w) (w_prefs w) (t_wt t)
-                              (t_wt_unmerged t) (w_base w) in
+                              (t_wt_unmerged t) (w_base w) (w_apc w) in
             (* log external modifications *)
             let logged :=
               if Nat.eqb (s_head (t_stack t)) (w_branch w) then Some (w0, t_stack t)
@@ -1013,7 +1014,7 @@ Definition execute (w : world) (r : tres) (msg : msgkind) : world * exitc :=
                   else inl (w_wt w1, w_unmerged w1) in
                 match co with
                 | inr (wt', um', x) =>
-                    (mkWorld (w_objs w1) (w_branch w1) (w_stack w1) (w_prefs w1) wt' um' (w_base w1), x)
+                    (mkWorld (w_objs w1) (w_branch w1) (w_stack w1) (w_prefs w1) wt' um' (w_base w1) (w_apc w1), x)
                 | inl (wt', um') =>
                     match w_stack w1 with
                     | None => (w1, X2)                   (* find_reference fails *)
@@ -1032,7 +1033,7 @@ Definition execute (w : world) (r : tres) (msg : msgkind) : world * exitc :=
                                             end) (w_prefs w1) (t_updated t) in
                             let branch' := if o_set_head o then trans_head else w_branch w1 in
                             let w2 := mkWorld objs' branch' (Some so) prefs' wt' um'
-                                              (match t_base t with Some b => b | None => w_base w1 end) in
+                                              (match t_base t with Some b => b | None => w_base w1 end) (w_apc w1) in
                             match halted with
                             | Some _ => (w2, X3)
                             | None => (w2, X0)
